@@ -1,3 +1,4 @@
+import Rpcx.Gen.Atomic
 import Rpcx.Model.Discovery
 /-
   C14: discovery updates converge to the last published server set, filtered.
@@ -115,5 +116,10 @@ theorem d23_witness : runUnordered [2, 1] = some 1 := by decide
 /-- non-vacuity: capacity 2, three back-to-back publishes then applies -/
 example : (run 2 ⟨[], none⟩ [.publish 1, .publish 2, .publish 3, .apply, .apply, .apply] : Watcher Nat).applied = some 3
     ∧ (run 2 ⟨[], none⟩ [.publish 1, .publish 2, .publish 3, .apply, .apply, .apply] : Watcher Nat).queue = [] := by decide
+
+/-- a delivered server list is a VALUE for the watcher (the model's assumption): no function of
+    the client sorts, in place, a list that belongs to the discovery and is shared with the
+    publisher and the other watchers (regenerated fact) -/
+theorem tie_delivered_list_not_mutated : Gen.inPlaceSortsOfSharedLists = [] := by decide
 
 end Rpcx.Props.C14
